@@ -22,7 +22,8 @@ RULE = (
 ASSUMPTIONS = ["reference matcher written from the statement of C19"]
 FLOORS = {"quick": {"model_agreement_checks": 30000, "law_symmetry": 2000, "law_monotonic": 5000,
                     "law_duality": 2000, "law_subscribe": 2000, "law_offer_roundtrip": 50, "law_for_service": 2000,
-                    "exhaustive_domains_completed": 3}}
+                    "exhaustive_domains_completed": 3,
+                    "offer_entries_matched_in_decoder_form": 5000}}
 
 W_I, W_M, W_N = 0xFFFF, 0xFF, 0xFFFFFFFF
 
@@ -96,6 +97,16 @@ class Checker:
         sub = H.SOMEIPSDEntry(sd_type=H.SOMEIPSDEntryType.Subscribe, service_id=r[0], instance_id=r[1],
                               major_version=r[2], ttl=(3, 0, 0xFFFFFF)[self.n % 3], minver_or_counter=egid | ((self.n % 4) * 5 << 16),
                               options_1=sub_opts)
+        # matching looks at ids and versions only: an offer entry straight from the decoder (its option runs still given as
+        # indexes into the message's option array) is matched like a hand-built one
+        if how == 2:
+            try:
+                raw = H.SOMEIPSDHeader.parse(bytes(H.SOMEIPSDHeader(entries=(offer,)).assign_option_indexes().build()))[0].entries[0]
+                ctx.count("offer_entries_matched_in_decoder_form")
+                if L.matches_offer(raw) is not L.matches_offer(offer):
+                    self.bad("matches_offer-differs-for-the-decoders-form-of-the-entry", left=l, right=r)
+            except Exception as exc:  # noqa: B902
+                self.bad("matches_offer-raises-for-the-decoders-form-of-the-entry", left=l, right=r, exc=repr(exc))
         got = dict(
             offer=L.matches_offer(offer), find=L.matches_find(find),
             service=L.matches_service(R), subscribe=L.matches_subscribe(sub),
